@@ -21,10 +21,25 @@ static void emit_graph(void) {
 	int n = vs_nlocks();
 	for (int a = 0; a < n; a++) for (int b = 0; b < n; b++) if (vs_edge(a, b)) res_printf("G %s %s %d %s\n", vs_lock_name(a), vs_lock_name(b), vs_edge(a, b), vs_edge_label(a, b)[0] ? vs_edge_label(a, b) : "start-up");
 }
-static void start_std(int lc1_absent) {
+/* populated state: trains on the track, occupied segments, reported accessories / boosters — several calls take further
+ * locks only then (e.g. the segment scan of bidib_get_train_position for a train that is on the track) */
+static void populate(void) {
+	static const struct { int board; uint8_t type; uint8_t d[10]; int dl; } POP[] = {
+		{0, MSG_BM_OCC, {0}, 1}, {0, MSG_BM_ADDRESS, {0, 0x23, 0x01}, 3}, {0, MSG_BM_OCC, {1}, 1}, {0, MSG_BM_ADDRESS, {1, 0x02, 0x03}, 3}, {1, MSG_BM_OCC, {0}, 1},
+		{0, MSG_BM_CONFIDENCE, {0, 0, 0}, 3}, {0, MSG_BM_CURRENT, {0, 20}, 2}, {0, MSG_BM_SPEED, {0x23, 0x01, 40, 0}, 4}, {0, MSG_BM_DYN_STATE, {0, 0x23, 0x01, 1, 50}, 5},
+		{1, MSG_ACCESSORY_STATE, {2, 0, 2, 0, 0}, 5}, {0, MSG_CS_STATE, {3}, 1}, {0, MSG_CS_DRIVE_ACK, {0x23, 0x01, 1}, 3}, {0, MSG_BOOST_STAT, {0x80}, 1}, {0, MSG_BOOST_DIAGNOSTIC, {0, 10, 1, 120, 2, 30}, 6},
+	};
+	for (size_t i = 0; i < sizeof POP / sizeof POP[0]; i++) { if (!M.b[POP[i].board].present) continue; sb_send(M.b[POP[i].board].sbnode, POP[i].type, POP[i].d, POP[i].dl); }
+	vs_point(); hx_quiesce();
+	bidib_set_train_speed("train1", 20, "master"); bidib_switch_point("pointd", "reverse"); bidib_flush(); hx_quiesce();
+	uint8_t *m; while ((m = bidib_read_message())) free(m); while ((m = bidib_read_error_message())) free(m);
+}
+static void start_std(int variant) {
+	int lc1_absent = variant & 1, populated = (variant >> 1) & 1;
 	cm_std(&M); if (lc1_absent) M.b[2].present = 0; cm_install(&M);
 	if (hx_start_normal(0)) res_infra("normal start failed");
 	hx_quiesce();
+	if (populated) populate();
 	vs_edges_reset();   /* the README excludes concurrent use during start: the initialisation ceremony (all locks taken once in declaration order) is not a nesting that calls perform */
 }
 static void check_balance(const char *name, int v) {
@@ -50,6 +65,7 @@ static void cat_child(const void *job, size_t n) {
 			check_balance(name, v);
 			if (res_nviol() > 5) goto out;
 		}
+		emit_graph(); vs_edges_reset();      /* edges are attributed to every entry that exhibits them */
 	}
 	vs_set_label("bidib_stop"); bidib_stop(); check_balance("bidib_stop", 0);
 out:
@@ -60,16 +76,20 @@ out:
 /* ---- parent: union graph */
 #define MAXLK 24
 static char lkname[MAXLK][48]; static int nlk; static int G[MAXLK][MAXLK]; static char Glabel[MAXLK][MAXLK][72];
+#define MAXLAB 10
+static char Glabels[MAXLK][MAXLK][MAXLAB][72]; static int nGl[MAXLK][MAXLK];   /* the calls that exhibit an edge (reset/stop/start-up are not concurrent participants) */
 static int lkidx(const char *n) { for (int i = 0; i < nlk; i++) if (!strcmp(lkname[i], n)) return i; if (nlk < MAXLK) { snprintf(lkname[nlk], 48, "%s", n); return nlk++; } return MAXLK - 1; }
 static void cat_res(long idx, const run_res_t *r) {
 	(void) idx; const char *l;
 	for (int i = 0; (l = res_line(r, 'G', i)); i++) { char a[48], b[48], label[72]; int bits; label[0] = 0;
-		if (sscanf(l, "%47s %47s %d %71[^\n]", a, b, &bits, label) >= 3) { int x = lkidx(a), y = lkidx(b); if (!G[x][y]) snprintf(Glabel[x][y], 72, "%s", label); G[x][y] |= bits; } }
+		if (sscanf(l, "%47s %47s %d %71[^\n]", a, b, &bits, label) >= 3) { int x = lkidx(a), y = lkidx(b); if (!G[x][y]) snprintf(Glabel[x][y], 72, "%s", label); G[x][y] |= bits;
+			if (strcmp(label, "bidib_stop") && strcmp(label, "bidib_send_sys_reset") && strcmp(label, "start-up")) { int k; for (k = 0; k < nGl[x][y]; k++) if (!strcmp(Glabels[x][y][k], label)) break;
+				if (k == nGl[x][y] && k < MAXLAB) snprintf(Glabels[x][y][nGl[x][y]++], 72, "%s", label); } } }
 }
 static size_t cat_gen(long idx, uint8_t *payload, char *human, size_t hn) {
-	int per = 6, absent = (int) (idx % 2); int from = (int) (idx / 2) * per, to = from + per;
+	int per = 6, absent = (int) (idx % 4); int from = (int) (idx / 4) * per, to = from + per;
 	memcpy(payload, &from, 4); memcpy(payload + 4, &to, 4); payload[8] = (uint8_t) absent;
-	snprintf(human, hn, "catalogue entries %d..%d (%s ...)%s", from, to - 1, from < N_ENTRIES ? entry_name(from) : "", absent ? " with board lc1 disconnected" : "");
+	snprintf(human, hn, "catalogue entries %d..%d (%s ...)%s%s", from, to - 1, from < N_ENTRIES ? entry_name(from) : "", absent & 1 ? " with board lc1 disconnected" : "", absent & 2 ? " in the populated state (trains on track)" : "");
 	return 9;
 }
 /* cycle search (simple DFS, graphs have < 20 nodes) */
@@ -84,12 +104,13 @@ static void dfs(int start, int v, int depth) {
 }
 /* ---- phase 2: run the calls behind a cycle concurrently */
 static int pair_e[3], pair_n;
-static void *pair_thread(void *arg) { int k = (int) (intptr_t) arg; vs_set_label(entry_name(pair_e[k])); run_entry(pair_e[k], 0); return NULL; }
+static void *pair_thread(void *arg) { int k = (int) (intptr_t) arg; vs_set_label(entry_name(pair_e[k])); int vs[24]; int nv = pair_variants(pair_e[k], vs); for (int i = 0; i < nv; i++) run_entry(pair_e[k], vs[i]); return NULL; }
 static void pair_child(const void *job, size_t n) {
 	vs_dev_t devs[VS_MAXDEV]; int nd; size_t pl; const uint8_t *p = job_parse(job, n, devs, &nd, &pl);
 	pair_n = p[0]; for (int i = 0; i < pair_n; i++) { int e; memcpy(&e, p + 1 + 4 * i, 4); pair_e[i] = e; }
+	int state_variant = p[1 + 4 * pair_n];
 	hx_child_begin(devs, nd, 1, NULL, 0, 0);
-	start_std(0); vs_sleep_us(2500000); hx_quiesce();
+	start_std(state_variant); vs_sleep_us(2500000); hx_quiesce();
 	int tids[3]; int nt = 0;
 	for (int i = 0; i < pair_n; i++) if (pair_e[i] >= N_HL + N_LL) { /* receiver entries: queue the message, the receiver thread is the actor */
 			int k = pair_e[i] - N_HL - N_LL; uint8_t d[16]; int dl; uplink_payload((uint8_t) (0x80 + k % 128), d, &dl); uint8_t m[40], f[90]; int ml = rc_build_msg(m, SB.n[k / 128 == 1 ? 1 : 0].addr, 0, (uint8_t) (0x80 + k % 128), d, dl); env_push_quiet(f, rc_frame(f, m, (size_t) ml, 1)); }
@@ -107,23 +128,42 @@ int c11_run(const char *tier) {
 	int thorough = !strcmp(tier, "thorough");
 	nlk = 0; memset(G, 0, sizeof G);
 	long nchunks = (N_ENTRIES + 5) / 6;
-	ex_spec_t e = { .harness = "c11.cat", .ncases = nchunks * 2, .gen = cat_gen, .on_result = cat_res, .label = "c11.cat" };
+	ex_spec_t e = { .harness = "c11.cat", .ncases = nchunks * 4, .gen = cat_gen, .on_result = cat_res, .label = "c11.cat" };
 	ex_map(&e);
 	int nedges = 0; for (int a = 0; a < nlk; a++) for (int b = 0; b < nlk; b++) if (G[a][b]) { nedges++; rep_note("lock order edge %s -> %s (modes %d) first seen in %s", lkname[a], lkname[b], G[a][b], Glabel[a][b]); }
 	nfound = 0; for (int s0 = 0; s0 < nlk; s0++) { cyc[0] = s0; dfs(s0, s0, 0); }
 	long pair_execs = 0, confirmed_runs = 0;
 	for (int c = 0; c < nfound; c++) {
-		char desc[400]; size_t o = 0; uint8_t param[16]; int pn = 0; param[0] = 0;
-		for (int i = 0; i < found_len[c]; i++) { int a = found_cycles[c][i], b = found_cycles[c][(i + 1) % found_len[c]]; o += (size_t) snprintf(desc + o, sizeof desc - o, "%s -[%s]-> ", lkname[a], Glabel[a][b]);
-			int en = entry_by_name(Glabel[a][b]); if (en >= 0 && pn < 3) { memcpy(param + 1 + 4 * pn, &en, 4); pn++; } }
-		param[0] = (uint8_t) pn;
-		rep_note("lock-order cycle candidate %d: %s(back to start); %d of its edges map to catalogue calls", c, desc, pn);
-		if (pn >= 2) { e1_spec_t s = { .harness = "c11.pair", .param = param, .nparam = 1 + 4 * (size_t) pn, .bound = thorough ? found_len[c] + 1 : found_len[c], .label = desc };
-			e1_explore(&s); for (int k = 0; k < 8; k++) pair_execs += s.schedules_by_cost[k]; confirmed_runs++; }
+		int L = found_len[c]; char desc[600]; size_t o = 0;
+		for (int i = 0; i < L; i++) { int a = found_cycles[c][i], b = found_cycles[c][(i + 1) % L]; o += (size_t) snprintf(desc + o, sizeof desc - o, "%s -[%d call(s), first %s]-> ", lkname[a], nGl[a][b], Glabel[a][b]); }
+		rep_note("lock-order cycle candidate %d: %s(back to start)", c, desc);
+		if (L > 3) continue;
+		/* every combination of one exhibiting call per edge (at most 36 per cycle), in both states, explored under E1 */
+		int idx[3] = {0, 0, 0}, combos = 0, confirmed = 0;
+		for (;;) {
+			uint8_t param[20]; int pn = 0; char lab[400]; size_t lo = 0; int ok = 1;
+			for (int i = 0; i < L; i++) { int a = found_cycles[c][i], b = found_cycles[c][(i + 1) % L]; if (idx[i] >= nGl[a][b]) { ok = 0; break; }
+				int en = entry_by_name(Glabels[a][b][idx[i]]); if (en < 0) { ok = 0; break; } memcpy(param + 1 + 4 * pn, &en, 4); pn++; lo += (size_t) snprintf(lab + lo, sizeof lab - lo, "%s%s", i ? " || " : "", Glabels[a][b][idx[i]]); }
+			/* two receiver entries cannot run concurrently (one receiver thread), the same call twice is fine */
+			int nrecv = 0; for (int i = 0; ok && i < pn; i++) { int en; memcpy(&en, param + 1 + 4 * i, 4); if (en >= N_HL + N_LL) nrecv++; }
+			if (ok && nrecv <= 1 && combos < 36) {
+				param[0] = (uint8_t) pn; combos++;
+				for (int sv = 0; sv <= 2 && !confirmed; sv += 2) {
+					if (rep_elapsed() > rep_deadline_s) break;
+					param[1 + 4 * pn] = (uint8_t) sv; int before = rep_nviol();
+					char label[500]; snprintf(label, sizeof label, "c11.pair cycle %d: %s (%s)", c, lab, sv ? "populated state" : "after start-up");
+					e1_spec_t s = { .harness = "c11.pair", .param = param, .nparam = 2 + 4 * (size_t) pn, .bound = thorough ? L + 1 : L, .label = strdup(label) };
+					e1_explore(&s); for (int k = 0; k < 8; k++) pair_execs += s.schedules_by_cost[k]; confirmed_runs++;
+					if (rep_nviol() > before) confirmed = 1;
+				}
+			}
+			int i = 0; for (; i < L; i++) { int a = found_cycles[c][i], b = found_cycles[c][(i + 1) % L]; if (++idx[i] < nGl[a][b]) break; idx[i] = 0; }
+			if (i == L || confirmed || combos >= 36) break;
+		}
 	}
 	rep_count("executions", e.done + pair_execs); rep_count("states", nedges > 0 ? nedges : 1); rep_count("transitions", rep_get("api_calls")); rep_count("distinct_nontrivial", rep_get("api_calls"));
 	rep_flag("exhaustive", e.exhaustive);
-	rep_note("catalogue: %d entries (%d high-level/util, %d low-level, 384 receiver cases) x 2 connectivity variants = %ld calls; lock-order graph: %d locks, %d edges, %d cycle candidates, %ld explored for confirmation (%ld schedules)",
+	rep_note("catalogue: %d entries (%d high-level/util, %d low-level, 384 receiver cases) x 2 connectivity variants x 2 states (after start-up / populated: trains on track, segments occupied) = %ld calls; lock-order graph: %d locks, %d edges, %d cycle candidates, %ld explored for confirmation (%ld schedules)",
 	         N_ENTRIES, N_HL, N_LL, rep_get("api_calls"), nlk, nedges, nfound, confirmed_runs, pair_execs);
 	return 0;
 }
